@@ -107,6 +107,7 @@ fn alphabet(n: usize, tier: Tier) -> Vec<Dev> {
     d.extend(crate::devs::rich_generic_devs(true));
     d.extend(crate::devs::rare_shape_devs(n, true));
     d.extend(crate::devs::rebound_prelude_devs());
+    d.extend(crate::devs::context_devs().into_iter().filter(|d| d.label.contains("inherent methods")));
     d.extend(crate::devs::syntax_devs(false, false, true, false).into_iter().filter(|d| d.label.contains("doc(hidden)")));
     for v in ["pub(crate)", "pub(super)"] {
         d.push(dev(format!("enum vis {}", v), &["evis"], move |s| {
@@ -118,7 +119,8 @@ fn alphabet(n: usize, tier: Tier) -> Vec<Dev> {
         s.extra_attrs.push("#[strum_discriminants(name(Dx))]".into());
         true
     }));
-    for v in ["pub", "pub(crate)", "pub(super)"] {
+    // `vis()` / `vis(pub(self))`: an explicitly PRIVATE generated type next to a visible enum
+    for v in ["pub", "pub(crate)", "pub(super)", "", "pub(self)"] {
         d.push(dev(format!("strum_discriminants(vis({}))", v), &["dvis"], move |s| {
             s.extra_attrs.push(format!("#[strum_discriminants(vis({}))]", v));
             true
@@ -307,7 +309,15 @@ pub fn render(spec: &EnumSpec) -> String {
         }
     }
     inner.push_str(&render_enum(spec, &["Debug", "Clone", "strum::EnumDiscriminants"]));
-    let mut o = format!("mod alias {{ pub use strum::EnumCount as Display; }}\nmod inner {{\n{}}}\n", inner);
+    // visibility probe: an inherent constant on the generated type; a block-local glob import of `inner::*` shadows the probe's own
+    // type of the same name iff the generated type is visible from outside `inner`
+    inner.push_str(&format!("impl {} {{ pub const VF_ORIGIN: &'static str = \"generated\"; }}\n", dn));
+    let private = matches!(dvis(spec).as_deref(), Some("") | Some("pub(self)"));
+    let head = format!(
+        "mod alias {{ pub use strum::EnumCount as Display; }}\n#[allow(dead_code, unused_imports)]\nfn vf_vis_probe() -> &'static str {{\n    struct {dn};\n    impl {dn} {{ const VF_ORIGIN: &'static str = \"local\"; }}\n    {{\n        use self::inner::*;\n        {dn}::VF_ORIGIN\n    }}\n}}\n",
+        dn = dn
+    );
+    let mut o = format!("mod inner {{\n{}}}\n", inner);
     o.push_str(&format!("type EC = inner::{}{};\ntype DC = inner::{};\n", spec.name, spec.generics_inst(), dn));
     // hand-written reference enum with the same repr and discriminants
     if let Some(r) = &spec.repr {
@@ -348,8 +358,13 @@ pub fn render(spec: &EnumSpec) -> String {
             o.push_str(&format!("      let d3: DC = <DC as From<EC>>::from(e); obs.push(({vi}, {j}, \"From<E>\", format!(\"{{:?}}\", d3), d3 as i128)); }}\n", vi = vi, j = j));
         }
     }
+    o.push_str(&format!(
+        "    let mut extras0: Vec<(String, String, String)> = vec![(\"visibility of the generated type from outside its module\".into(), {want:?}.into(), {probe}().to_string())];\n",
+        want = if private { "local" } else { "generated" },
+        probe = if private { "super::super::vf_vis_probe" } else { "vf_vis_probe" }
+    ));
     o.push_str("    let layout = (core::mem::size_of::<DC>(), core::mem::align_of::<DC>(), core::mem::size_of::<RefD>(), core::mem::align_of::<RefD>());\n");
-    o.push_str("    let mut extras: Vec<(String, String, String)> = Vec::new();\n");
+    o.push_str("    let mut extras: Vec<(String, String, String)> = extras0;\n");
     let all = spec.extra_attrs.join(" ");
     // the generated type always derives Clone, Copy, Debug, PartialEq, Eq
     o.push_str("    fn _always<X: Clone + Copy + core::fmt::Debug + PartialEq + Eq>() {}\n    _always::<DC>();\n");
@@ -393,6 +408,14 @@ pub fn render(spec: &EnumSpec) -> String {
         }
     }
     o.push_str("    vf_core::props::c09::check(ctx, obs, layout, extras);\n}\n");
+    if private {
+        // the generated type cannot be named from outside `inner`: the whole harness moves into a child module of `inner`
+        // (private items are visible there), only the probe stays outside
+        let marker = format!("mod inner {{\n{}}}\n", inner);
+        let rest = o[marker.len()..].replace("inner::", "super::");
+        return format!("{}mod inner {{\n{}pub mod h {{\n#![allow(unused_imports, dead_code)]\nuse super::*;\n{}}}\n}}\npub use inner::h::run;\n", head, inner, rest);
+    }
+    let o = format!("{}{}", head, o);
     o
 }
 
